@@ -442,11 +442,15 @@ impl Node {
             .whereis(to)
             .await
             .ok_or_else(|| Error::NameNotRegistered(to.clone()))?;
+        #[cfg(edp_rs_verif)]
+        edp_client::verif::sched_point("local::name_resolved").await;
         self.send(&pid, message).await
     }
 
     async fn send_local(&self, to: &ExternalPid, message: OwnedTerm) -> Result<()> {
         if let Some(handle) = self.registry.get(to).await {
+            #[cfg(edp_rs_verif)]
+            edp_client::verif::sched_point("local::before_mailbox_send").await;
             handle
                 .send(Message::Regular {
                     from: None,
@@ -483,6 +487,8 @@ impl Node {
         }
 
         if to.node == self.name {
+            #[cfg(edp_rs_verif)]
+            edp_client::verif::sched_point("local::between_links").await;
             if let Some(to_handle) = self.registry.get(to).await {
                 to_handle.add_link(from.clone()).await;
             }
@@ -508,6 +514,8 @@ impl Node {
         }
 
         if to.node == self.name {
+            #[cfg(edp_rs_verif)]
+            edp_client::verif::sched_point("local::between_links").await;
             if let Some(to_handle) = self.registry.get(to).await {
                 to_handle.remove_link(from).await;
             }
